@@ -258,6 +258,16 @@ OtherLike(D, kind, dim, shift) ==
 BatchSizes(n, lvl) == CASE lvl = "full" -> 0..(n + 1) [] lvl = "mid" -> {0, 2} [] OTHER -> {0}
 Keeps(lvl) == IF lvl = "lite" THEN {FALSE} ELSE BOOLEAN
 RedFns(lvl) == CASE lvl = "full" -> {"sum", "prod", "min", "max", "mean", "std"} [] lvl = "mid" -> {"sum", "max", "mean", "std"} [] OTHER -> {"sum"}
+\* lvl "wide": dimensions of 11..13 nodes, so that ONE node takes 11 or more inputs ("input10" sorts before "input2"):
+\* the order-sensitive reductions un-batched (0, n, n+1) and batched with 11 per batch; sum as the commutative witness
+WideDims(D) == {D.dims[i] : i \in {j \in DOMAIN D.dims : Len(D.coords[j]) >= 11}}
+WideOps(D) == UNION {LET n == Len(D.coords[Pos(D, d)]) IN
+       {O(f, d, bs, FALSE, 0, 0, <<>>, <<>>, NoSrc) : <<f, bs>> \in {"concatenate", "rfirst"} \X {0, 11, n, n + 1}}
+  \cup {O(f, d, 11, TRUE, 0, 0, <<>>, <<>>, NoSrc) : f \in {"concatenate", "rfirst"}}
+  \cup {O("stack", d, bs, FALSE, ax, 0, <<>>, <<>>, NoSrc) : <<bs, ax>> \in {0, 11, n + 1} \X (0..Len(D.val[1].shape))}
+  \cup {O("flatten", d, 0, FALSE, ax, 0, <<>>, <<>>, NoSrc) : ax \in 0..Len(D.val[1].shape)}
+  \cup {O("sum", d, bs, FALSE, 0, 0, <<>>, <<>>, NoSrc) : bs \in {0, 11}}
+       : d \in WideDims(D)}
 BigDims(D) == {D.dims[i] : i \in {j \in DOMAIN D.dims : Len(D.coords[j]) >= 2}}
 VecLen(D) == IF D.val[1].shape = <<>> THEN 0 ELSE D.val[1].shape[1]
 OpsFor(D, lvl, nc) ==
@@ -268,7 +278,7 @@ OpsFor(D, lvl, nc) ==
       size(d) == Len(D.coords[Pos(D, d)])
       label(d, j) == StrToInt(D.coords[Pos(D, d)][j])
       red(ops, lv) == UNION {{O(f, d, bs, kp, 0, 0, <<>>, <<>>, NoSrc) : <<f, bs, kp>> \in ops \X BatchSizes(size(d), lv) \X Keeps(lv)} : d \in BigDims(D)}
-  IN IF ~SameArrShapes(D) THEN {} ELSE
+  IN IF ~SameArrShapes(D) THEN {} ELSE IF lvl = "wide" THEN WideOps(D) ELSE
        red(RedFns(lvl), lvl)
   \cup (IF lite THEN {O("sum", d, 0, TRUE, 0, 0, <<>>, <<>>, NoSrc) : d \in BigDims(D)} ELSE {})
   \cup (IF full THEN red({"rmean", "rfirst"}, "full") ELSE {})
@@ -336,8 +346,12 @@ Extend(D, lvls, nc, sofar) ==
               : o \in OpsFor(D, Head(lvls), nc)}
 Progs(srcs, lvls) == UNION {{[src |-> s, ops |-> p] : p \in Extend(SrcDen(s), lvls, s.nocoords, <<>>)} : s \in srcs}
 \* depth 1: everything; deeper: thinned inner parameters (quick: lite.mid; thorough: lite.full, mid.mid, lite.lite.mid)
+WideSources == {Src(<<"x">>, <<11>>, FALSE), SrcO(<<"x">>, <<12>>, FALSE, "shuf"), Src(<<"x">>, <<13>>, TRUE)}
+               \cup (IF Tier = "quick" THEN {} ELSE {SrcO(<<"x">>, <<13>>, FALSE, "desc"), Src(<<"x", "y">>, <<2, 11>>, FALSE),
+                                                     Src(<<"x", "y">>, <<12, 2>>, TRUE)})
 Programs(tier) ==
      Progs(Sources, <<"full">>)
+  \cup Progs(WideSources, <<"wide">>)
   \cup (IF tier = "quick" THEN Progs(DeepSources, <<"lite", "mid">>)
         ELSE Progs(DeepSources, <<"lite", "full">>) \cup Progs({s \in DeepSources : ~s.nocoords}, <<"mid", "mid">>)
              \cup Progs(DeepSources, <<"lite", "lite", "mid">>))
